@@ -191,7 +191,7 @@ def _null_test(f, cond, uses=None):
     return None
 
 
-def wipe_summaries(module, count_plain_stores=lambda f: True, sinks=None, limit=4096):
+def wipe_summaries(module, count_plain_stores=lambda f: True, sinks=None, limit=4096, mode="wipe"):
     """Bottom-up must-wipe summaries for every defined function.
 
     A byte of a pointer parameter's pointee is "wiped" on a path if it was
@@ -199,14 +199,18 @@ def wipe_summaries(module, count_plain_stores=lambda f: True, sinks=None, limit=
     store / memset, or wiped by a callee (summary), and not overwritten with
     non-constant data afterwards.  Paths on which the parameter is known to be
     null are exempt."""
+    """mode="init": every write (any store, block copy, block fill, callee
+    must-write) defines bytes and nothing kills them - used to show that a
+    constructor defines a whole member on every path."""
     sinks = dict(WIPE_SINKS if sinks is None else sinks)
     summ = {}
     for f in module.bottom_up():
-        summ[f.name] = _wipe_function(module, f, summ, sinks, count_plain_stores(f), limit)
+        summ[f.name] = _wipe_function(module, f, summ, sinks, count_plain_stores(f), limit, mode)
     return summ
 
 
-def _wipe_function(module, f, summ, sinks, plain_ok, limit):
+def _wipe_function(module, f, summ, sinks, plain_ok, limit, mode="wipe"):
+    init = mode == "init"
     R = ptr.resolver(f)
     pidx = {p: k for k, p in enumerate(f.params) if f.param_ty[k].endswith("*")}
     S = WipeSummary()
@@ -230,16 +234,16 @@ def _wipe_function(module, f, summ, sinks, plain_ok, limit):
                     k = pidx[root[1]]
                     if pv.offset is not None and not pv.variable:
                         rng = range(pv.offset, pv.offset + i.d["sz"])
-                        if (c is not None or isz or i.ops[0] == "null") and plain_ok:
+                        if init or ((c is not None or isz or i.ops[0] == "null") and plain_ok):
                             st.setdefault(k, set()).update(rng)
                         elif c is None and not isz:
                             st.setdefault(k, set()).difference_update(rng)
                             S.maywrite[k] = True
                     else:
-                        if c is None and not isz:
+                        if c is None and not isz and not init:
                             st[k] = set()
                             S.maywrite[k] = True
-                elif not root:
+                elif not root and not init:
                     for r in pv.roots:
                         if r[0] == "param" and r[1] in pidx and c is None:
                             st[pidx[r[1]]] = set()
@@ -257,10 +261,10 @@ def _wipe_function(module, f, summ, sinks, plain_ok, limit):
                 v = ir.const_int(i.ops[1])
                 if root and root[0] == "param" and root[1] in pidx:
                     k = pidx[root[1]]
-                    if pv.offset is not None and not pv.variable and n is not None and v is not None and n <= limit:
-                        if plain_ok:
+                    if pv.offset is not None and not pv.variable and n is not None and (v is not None or init) and n <= limit:
+                        if plain_ok or init:
                             st.setdefault(k, set()).update(range(pv.offset, pv.offset + n))
-                    elif v is None:
+                    elif v is None and not init:
                         st[k] = set()
                         S.maywrite[k] = True
                 continue
@@ -271,7 +275,10 @@ def _wipe_function(module, f, summ, sinks, plain_ok, limit):
                     if r[0] == "param" and r[1] in pidx:
                         k = pidx[r[1]]
                         S.maywrite[k] = True
-                        if pv.offset is not None and not pv.variable and n is not None and len(pv.roots) == 1:
+                        if init:
+                            if pv.offset is not None and not pv.variable and n is not None and len(pv.roots) == 1 and n <= limit:
+                                st.setdefault(k, set()).update(range(pv.offset, pv.offset + n))
+                        elif pv.offset is not None and not pv.variable and n is not None and len(pv.roots) == 1:
                             st.setdefault(k, set()).difference_update(range(pv.offset, pv.offset + n))
                         else:
                             st[k] = set()
@@ -305,7 +312,7 @@ def _wipe_function(module, f, summ, sinks, plain_ok, limit):
                             "readonly" in cf.param_attrs[an] or "readnone" in cf.param_attrs[an])
                         must, mayw = frozenset(), not ro and cal not in READONLY_EXTERNALS
                     if len(pv.roots) == 1 and pv.offset is not None and not pv.variable:
-                        if mayw:
+                        if mayw and not init:
                             S.maywrite[k] = True
                             # bytes the callee does not provably wipe may now hold data
                             csz = _pointee_size(module, argty[an])
@@ -317,7 +324,7 @@ def _wipe_function(module, f, summ, sinks, plain_ok, limit):
                                 cur.difference_update(range(pv.offset, pv.offset + csz))
                         st.setdefault(k, set()).update(pv.offset + x for x in must)
                     else:
-                        if mayw:
+                        if mayw and not init:
                             S.maywrite[k] = True
                             st[k] = set()
         return st
